@@ -136,6 +136,30 @@ func CollectFormals(formals *lisp.LVal, defs map[string]bool) {
 	}
 }
 
+// ExportNames returns the names the arguments of an (export ...) form export.
+// The runtime accepts a name as a symbol or as a string, and a (quoted) list
+// of names, recursively; every element of such a list is exported.
+func ExportNames(args []*lisp.LVal) []string {
+	return exportNames(args, false)
+}
+
+func exportNames(args []*lisp.LVal, quoted bool) []string {
+	var out []string
+	for _, arg := range args {
+		if arg == nil {
+			continue
+		}
+		switch {
+		case arg.Type == lisp.LSymbol, arg.Type == lisp.LString:
+			out = append(out, arg.Str)
+		case arg.Type == lisp.LSExpr && (quoted || arg.IsQuoted()):
+			// everything under a quote is data: nested lists are lists of names
+			out = append(out, exportNames(arg.Cells, true)...)
+		}
+	}
+	return out
+}
+
 // PackageNameArg extracts a package name from a use-package or in-package
 // argument. Handles quoted symbols ('testing), bare symbols (testing), and
 // strings ("testing").
